@@ -397,9 +397,8 @@ def reproduces_in_fresh_process(hist):
     import subprocess
     import sys
 
-    d = os.path.join(runner.WORK, "C11")
-    os.makedirs(d, exist_ok=True)
-    path = os.path.join(d, "candidate_replay.json")
+    path = CANONICAL_REPLAY
+    os.makedirs(os.path.dirname(path), exist_ok=True)
     with open(path, "w", encoding="utf-8") as f:
         json.dump({"input": {"history": hist}}, f, ensure_ascii=False)
     try:
@@ -879,8 +878,29 @@ def run(ctx):
                                     "Tree objects themselves are not rebound"])
 
 
+CANONICAL_REPLAY = os.path.join(runner.WORK, "C11", "candidate_replay.json")
+
+
 def replay(path):
     r = json.load(open(path, encoding="utf-8"))
+    if os.path.abspath(path) != CANONICAL_REPLAY:
+        # A failure may depend on object identity (an address handed out again after a cache entry died). Whether that happens depends on every
+        # allocation of the process, also on those of reading this file. So the history alone is written to the one file the shrinking tests used as
+        # well, and executed in a new interpreter started exactly the way those tests were started.
+        import subprocess
+        import sys
+
+        if "history" not in (r.get("input") or {}):
+            print("this replay file names the obligation that no longer checks; there is no failing history to replay")
+            return 0
+        os.makedirs(os.path.dirname(CANONICAL_REPLAY), exist_ok=True)
+        with open(CANONICAL_REPLAY, "w", encoding="utf-8") as f:
+            json.dump({"input": {"history": r["input"]["history"]}}, f, ensure_ascii=False)
+        p = subprocess.run([sys.executable, os.path.join(runner.ROOT, "check"), "C11", "--replay", CANONICAL_REPLAY], capture_output=True, text=True, timeout=900, check=False)
+        print(p.stdout, end="")
+        print("recorded expected:", r.get("expected"))
+        print("recorded observed:", r.get("observed"))
+        return 1 if (p.returncode == 1 and "property violated" in p.stdout) else 0
     im = Impl()
     hist = r["input"]["history"]
     rep = execute(im, hist)
